@@ -28,9 +28,8 @@ Definition apply_call (cfg : Defects) (w : world) (st : state) (touched : bool) 
     let '(ic', e) := call_delete cfg w ic a touched in
     (Build_state (s_tm st) ic' (s_h st) (s_ph st), match e with Some e => res_err e | None => res_ok 0 end)
   else if m =? 3 then
-    (* Register called by an account: only the service manager contract may call it (caller check 22554672);
-       [call_register] is what the contract does for that caller and is not reachable from a user transaction *)
-    (st, res_err E_TM_PERM)
+    let '(ic', e) := call_register w ic a in
+    (Build_state (s_tm st) ic' (s_h st) (s_ph st), match e with Some e => res_err e | None => res_ok 3 end)
   else if m =? 4 then (st, if call_get_ibtp ic (a, b, c) (negb (d =? 0)) then res_ok 3 else res_err E_NO_IBTP)
   else if m =? 5 then
     (* HandleIBTPData through the registered contract object: its service cache is nil *)
